@@ -48,6 +48,22 @@
 //!    speaks of a restarted coordinator; from that restart on the completion "was logged
 //!    before the crash" and the reversal lies "afterwards" in the transaction's history.
 //!
+//! Strengthened (round 4) by the coordinator's configuration as part of the case, without a new
+//! oracle clause:
+//!  * `configs`: every field of `DistributedTxConfig` (max_concurrent, prepare_timeout_ms,
+//!    commit_timeout_ms, orthogonal_threshold, optimistic_locking, tx_queue_soft_limit_pct), small
+//!    values included; incarnation i is built with `configs[min(i, len-1)]` (mostly one
+//!    configuration for every incarnation; now and then the operator changes it at the first
+//!    restart). Empty = the default configuration, as in older replay files;
+//!  * a `begin` refused because of the limit is un-acknowledged (no transaction, no ledger entry);
+//!  * a new program shape (`gen_rounds`): rounds of "as many transactions as the limit admits,
+//!    now and then one more", their votes, some decisions, and between the rounds what the
+//!    quantifier calls the following sequence of timeouts (advance past the configured prepare
+//!    timeout, `cleanup_timeouts`, abort broadcast), recovery calls, restarts and further
+//!    transactions — so that the log comes to hold more open transactions than `max_concurrent`
+//!    (the timeout sweep frees `begin` slots without logging anything);
+//!  * the epilogue and the live tails of `Mode::Limits` advance past the longest configured timeout.
+//!
 //! Oracle = ledger of completions that were logged before a restart
 //! (`commit`/`abort` returned `Ok` while the node was alive, or — for the call
 //! cut by the crash — the `TxComplete` record lies wholly in the surviving
@@ -155,6 +171,52 @@ pub struct LogLimit {
     pub lives: u8,
 }
 
+/// The coordinator's configuration: every field of `DistributedTxConfig`.
+#[derive(Serialize, Deserialize, Clone, Debug, PartialEq)]
+pub struct CoordCfg {
+    /// timeout of a transaction begun by this incarnation (restored ones get 5000 ms)
+    pub prepare_timeout_ms: u64,
+    pub commit_timeout_ms: u64,
+    /// `begin` is refused while this many transactions are pending
+    pub max_concurrent: u32,
+    pub orthogonal_threshold: f32,
+    pub optimistic_locking: bool,
+    pub tx_queue_soft_limit_pct: u8,
+}
+
+impl CoordCfg {
+    /// `DistributedTxConfig::default()`
+    fn default_values() -> Self {
+        let d = DistributedTxConfig::default();
+        CoordCfg {
+            prepare_timeout_ms: d.prepare_timeout_ms,
+            commit_timeout_ms: d.commit_timeout_ms,
+            max_concurrent: d.max_concurrent.min(u32::MAX as usize) as u32,
+            orthogonal_threshold: d.orthogonal_threshold,
+            optimistic_locking: d.optimistic_locking,
+            tx_queue_soft_limit_pct: d.tx_queue_soft_limit_pct,
+        }
+    }
+
+    fn real(&self) -> DistributedTxConfig {
+        DistributedTxConfig {
+            prepare_timeout_ms: self.prepare_timeout_ms,
+            commit_timeout_ms: self.commit_timeout_ms,
+            max_concurrent: self.max_concurrent as usize,
+            orthogonal_threshold: self.orthogonal_threshold,
+            optimistic_locking: self.optimistic_locking,
+            tx_queue_soft_limit_pct: self.tx_queue_soft_limit_pct,
+        }
+    }
+
+    fn show(&self) -> String {
+        format!(
+            "max_concurrent={} prepare_timeout_ms={} commit_timeout_ms={} orthogonal_threshold={} optimistic_locking={} tx_queue_soft_limit_pct={}",
+            self.max_concurrent, self.prepare_timeout_ms, self.commit_timeout_ms, self.orthogonal_threshold, self.optimistic_locking, self.tx_queue_soft_limit_pct
+        )
+    }
+}
+
 #[derive(Serialize, Deserialize, Clone, Debug, PartialEq)]
 pub enum Mode {
     Enumerate,
@@ -187,6 +249,26 @@ pub struct Case {
     /// size limit of the transaction log (None: default configuration, 1 GiB with rotation)
     #[serde(default)]
     pub log_limit: Option<LogLimit>,
+    /// the coordinator's configuration: incarnation i is built with `configs[min(i, len-1)]`
+    /// (one entry: the same configuration in every incarnation; several: the operator changed
+    /// it between restarts). Empty: `DistributedTxConfig::default()` throughout
+    #[serde(default)]
+    pub configs: Vec<CoordCfg>,
+}
+
+/// The configuration incarnation `inc` of the coordinator is built with.
+fn cfg_of(case: &Case, inc: usize) -> CoordCfg {
+    match case.configs.len() {
+        0 => CoordCfg::default_values(),
+        n => case.configs[inc.min(n - 1)].clone(),
+    }
+}
+
+/// A clock advance after which every transaction has timed out, whichever incarnation began
+/// it (6000 ms with the default configuration: restored transactions carry 5000 ms).
+fn timeout_span(case: &Case) -> u32 {
+    let longest = case.configs.iter().map(|c| c.prepare_timeout_ms).max().unwrap_or(0);
+    longest.saturating_add(1000).clamp(6000, 3_600_000) as u32
 }
 
 pub struct C13;
@@ -265,6 +347,8 @@ struct TxRec {
     /// an abort of a transaction that was still collecting votes was cut by a
     /// crash after its PhaseChange -> Aborting record: no expectation
     loose: bool,
+    /// listed by `cleanup_timeouts` (probe bookkeeping only)
+    swept: bool,
     /// was collecting votes at a restart: must stay absent
     forgotten: bool,
     abort_sent: bool,
@@ -671,6 +755,12 @@ impl<'a> Trial<'a> {
                 if parts.len() > 3 {
                     ctx.probe("wide_tx_begun");
                 }
+                // transactions the timeout sweep dropped from memory without a log record: the
+                // log still shows them as open while their `begin` slots are free again
+                let swept_open = self.recs.values().filter(|r| r.swept && r.prepared_logged && r.outcome.is_none()).count();
+                if swept_open > 0 && c.pending_count() + swept_open > cfg_of(self.case, self.inc).max_concurrent as usize {
+                    ctx.probe("begin_admitted_into_slot_freed_by_timeout_sweep");
+                }
                 ctx.event(&format!("s{i} begin t{t} n{} first_shard{} kb{kb}", parts.len(), parts[0]));
                 self.by_id.insert(tx.tx_id, t);
                 self.recs.insert(
@@ -686,12 +776,23 @@ impl<'a> Trial<'a> {
                         err_logged: false,
                         volatile: false,
                         loose: false,
+                        swept: false,
                         forgotten: false,
                         abort_sent: false,
                     },
                 );
             },
-            Err(e) => ctx.event(&format!("s{i} begin t{t} failed: {e}")),
+            Err(e) => {
+                // a call refused because of a limit is un-acknowledged: no transaction, no ledger entry
+                let msg = e.to_string();
+                if msg.contains("too many concurrent") {
+                    ctx.probe("begin_refused_at_max_concurrent");
+                    if self.inc > 0 {
+                        ctx.probe("begin_refused_at_max_concurrent_after_restart");
+                    }
+                }
+                ctx.event(&format!("s{i} begin t{t} failed: {msg}"));
+            },
         }
     }
 
@@ -1238,7 +1339,11 @@ impl<'a> Trial<'a> {
                 self.deferred.push(("committed-then-timed-out", detail));
             }
             rec.volatile = true;
+            rec.swept = true;
             self.ctx.probe("tx_timed_out");
+            if !self.case.configs.is_empty() && cfg_of(self.case, inc).prepare_timeout_ms != 5000 {
+                self.ctx.probe("tx_timed_out_under_configured_timeout");
+            }
             if inc > 0 && phases.get(&t) == Some(&TxPhase::Committing) {
                 self.ctx.probe("sweep_over_recovered_committing");
                 self.observe("observation(decision logged, completion not logged: outside C13's clauses): a recovered transaction in phase Committing was timed out by cleanup_timeouts and an abort broadcast queued");
@@ -1324,7 +1429,7 @@ impl<'a> Trial<'a> {
         let wal = match self.open_wal() {
             Ok(w) => w,
             // the (next) crash fired inside this very open: what the dead process sees does not count
-            Err(_) if !self.alive() => return Ok(Arc::new(Self::placeholder())),
+            Err(_) if !self.alive() => return Ok(Arc::new(self.placeholder())),
             Err(e) => {
                 return Err(viol("wal-open-failed", format!("{what}: TxWal::open on a log the coordinator wrote itself failed: {e}")))
             },
@@ -1334,11 +1439,25 @@ impl<'a> Trial<'a> {
         }
         // the log as recovery will see it (used to decide what the call cut by the crash had logged)
         let entries = wal.replay();
-        let c = Arc::new(Self::placeholder().with_wal(wal));
-        let restores = entries.as_ref().map(|e| {
-            let st = TxRecoveryState::from_entries(e);
-            !(st.prepared_txs.is_empty() && st.committing_txs.is_empty() && st.aborting_txs.is_empty())
-        });
+        let c = Arc::new(self.placeholder().with_wal(wal));
+        let open_in_log = entries
+            .as_ref()
+            .map(|e| {
+                let st = TxRecoveryState::from_entries(e);
+                st.prepared_txs.len() + st.committing_txs.len() + st.aborting_txs.len()
+            })
+            .unwrap_or(0);
+        let restores = entries.as_ref().map(|_| open_in_log > 0);
+        if !self.case.configs.is_empty() {
+            let cfg = cfg_of(self.case, self.inc);
+            ctx.event(&format!("restart #{} configuration: {}", self.inc, cfg.show()));
+            if cfg != cfg_of(self.case, self.inc - 1) {
+                ctx.probe("configuration_changed_at_restart");
+            }
+            if open_in_log > cfg.max_concurrent as usize {
+                ctx.probe("restart_with_more_open_txs_in_log_than_max_concurrent");
+            }
+        }
         let stats = {
             let _g = if restores.unwrap_or(false) { Some(id_shared()) } else { None };
             c.recover_from_wal()
@@ -1625,18 +1744,23 @@ impl<'a> Trial<'a> {
         Ok(())
     }
 
-    fn placeholder() -> DistributedTxCoordinator {
-        DistributedTxCoordinator::new(ConsensusManager::new(ConsensusConfig::default()), DistributedTxConfig::default())
+    /// a coordinator (without log) with the configuration of the current incarnation
+    fn placeholder(&self) -> DistributedTxCoordinator {
+        DistributedTxCoordinator::new(ConsensusManager::new(ConsensusConfig::default()), cfg_of(self.case, self.inc).real())
     }
 
     fn start(&mut self) -> Result<Arc<DistributedTxCoordinator>, Violation> {
         let wal = match self.open_wal() {
             Ok(w) => w,
             // the crash fired inside this very open: what the dead process sees does not count
-            Err(_) if !self.alive() => return Ok(Arc::new(Self::placeholder())),
+            Err(_) if !self.alive() => return Ok(Arc::new(self.placeholder())),
             Err(e) => return Err(viol("wal-open-failed", format!("first open: {e}"))),
         };
-        let c = Arc::new(Self::placeholder().with_wal(wal));
+        if !self.case.configs.is_empty() {
+            self.ctx.event(&format!("start configuration: {}", cfg_of(self.case, 0).show()));
+            self.ctx.probe("non_default_coordinator_configuration");
+        }
+        let c = Arc::new(self.placeholder().with_wal(wal));
         // empty log: no transaction is restored, no id is generated
         let r = c.recover_from_wal();
         if self.alive() {
@@ -1761,7 +1885,7 @@ fn full_steps_with(case: &Case, extra: &[Step]) -> Vec<Step> {
     v.push(Step::Restart);
     v.push(Step::DriveAll);
     v.push(Step::Restart);
-    v.push(Step::Advance { ms: 6000 });
+    v.push(Step::Advance { ms: timeout_span(case) });
     v.push(Step::Sweep);
     v.push(Step::Begin { t: EPILOGUE_SLOT, n, kb });
     for s in 0..n.clamp(1, 3) {
@@ -1858,7 +1982,7 @@ fn gen_classic(rng: &mut Rng) -> Case {
         )
     };
     let handle_numbering = u8::from(rng.chance(1, 2));
-    Case { steps, recover_after_restart, mode, handle_numbering, log_limit: None }
+    Case { steps, recover_after_restart, mode, handle_numbering, log_limit: None, configs: Vec::new() }
 }
 
 /// The log configuration as part of the case: a round-1 program whose log has a hard size
@@ -2040,7 +2164,131 @@ fn gen_par(rng: &mut Rng) -> Case {
         5 => Mode::Sample { seed: 0, points: 0 },
         _ => gen_chain(rng, 4 * steps.len()),
     };
-    Case { steps, recover_after_restart, mode, handle_numbering: u8::from(rng.chance(1, 2)), log_limit: None }
+    Case { steps, recover_after_restart, mode, handle_numbering: u8::from(rng.chance(1, 2)), log_limit: None, configs: Vec::new() }
+}
+
+/// A coordinator configuration: every field of `DistributedTxConfig`, small values included.
+fn gen_cfg(rng: &mut Rng) -> CoordCfg {
+    CoordCfg {
+        max_concurrent: *rng.pick(&[0u32, 1, 1, 1, 2, 2, 2, 2, 3, 3, 4, 5, 100]),
+        prepare_timeout_ms: *rng.pick(&[0u64, 1, 50, 500, 500, 2000, 5000, 5000, 20_000, 60_000]),
+        commit_timeout_ms: *rng.pick(&[0u64, 100, 10_000, 60_000]),
+        orthogonal_threshold: *rng.pick(&[-1.0f32, 0.0, 0.1, 0.1, 0.9, 2.0]),
+        optimistic_locking: rng.chance(2, 3),
+        tx_queue_soft_limit_pct: *rng.pick(&[0u8, 50, 80, 100, 255]),
+    }
+}
+
+/// One configuration for every incarnation (mostly), or a change at the first restart:
+/// default -> drawn (the operator tightens it), drawn -> another drawn one, drawn -> default.
+fn gen_configs(rng: &mut Rng) -> Vec<CoordCfg> {
+    let cfg = gen_cfg(rng);
+    match rng.below(8) {
+        0 => vec![CoordCfg::default_values(), cfg],
+        1 => {
+            let other = gen_cfg(rng);
+            vec![cfg, other]
+        },
+        2 => vec![cfg, CoordCfg::default_values()],
+        _ => vec![cfg],
+    }
+}
+
+/// The configuration as part of the case: rounds of transactions up to (and now and then one
+/// past) the coordinator's limit, and between the rounds the quantifier's "following sequence
+/// of recovery calls, timeouts and further transactions": every timeout passes and the sweep
+/// runs (which frees `begin` slots without a log record), abort broadcasts, pending decisions,
+/// `recover`, clean restarts. Up to 6 transactions of 1-2 participants in 2-3 rounds.
+fn gen_rounds(rng: &mut Rng) -> Case {
+    let configs = gen_configs(rng);
+    let first = configs[0].clone();
+    let cap = (first.max_concurrent as usize).clamp(1, 3);
+    let rounds = rng.range(2, 3);
+    let mut steps: Vec<Step> = Vec::new();
+    let mut slot = 0u8;
+    for round in 0..rounds {
+        let k = (cap + usize::from(rng.chance(1, 3))).min(3).min(6 - slot as usize);
+        let mut mine: Vec<u8> = Vec::new();
+        // begin them all first, or one after the other with its votes
+        let together = rng.chance(1, 2);
+        let mut votes: Vec<Step> = Vec::new();
+        for _ in 0..k {
+            let t = slot;
+            slot += 1;
+            mine.push(t);
+            let n = rng.range(1, 2) as u8;
+            // mostly disjoint keys for the transactions that are open together
+            let kb = if rng.chance(5, 6) { (2 * t) % 6 } else { rng.below(6) as u8 };
+            steps.push(Step::Begin { t, n, kb });
+            let shape = rng.below(12);
+            for sh in 0..n {
+                let v = match shape {
+                    0 if sh == n - 1 => V::No,
+                    1 if sh == n - 1 => continue,
+                    _ => V::Yes,
+                };
+                let st = Step::Vote { t, s: sh, v };
+                if together {
+                    votes.push(st);
+                } else {
+                    steps.push(st);
+                }
+            }
+        }
+        steps.append(&mut votes);
+        for t in &mine {
+            match rng.below(10) {
+                0..=1 => steps.push(Step::Commit { t: *t }),
+                2 => steps.push(Step::Abort { t: *t }),
+                _ => {},
+            }
+        }
+        if round + 1 == rounds && rng.chance(2, 3) {
+            // the epilogue (which starts with a restart) follows at once
+            break;
+        }
+        let pt = first.prepare_timeout_ms;
+        let past = *rng.pick(&[pt + 1, pt + 1000, pt.max(5000) + 1000]) as u32;
+        match rng.below(12) {
+            0..=4 => {
+                steps.push(Step::Advance { ms: past });
+                steps.push(Step::Sweep);
+                if rng.chance(1, 2) {
+                    steps.push(Step::Aborts);
+                }
+            },
+            5 => steps.push(Step::Restart),
+            6 => {
+                steps.push(Step::Advance { ms: past });
+                steps.push(Step::Sweep);
+                steps.push(Step::Restart);
+            },
+            7 => {
+                steps.push(Step::Restart);
+                steps.push(Step::Advance { ms: past });
+                steps.push(Step::Sweep);
+            },
+            8 => steps.push(if rng.chance(1, 2) { Step::DriveAll } else { Step::Decide }),
+            9 => {
+                // exactly at the timeout (not yet timed out), then the sweep
+                steps.push(Step::Advance { ms: pt.min(100_000) as u32 });
+                steps.push(Step::Sweep);
+            },
+            10 => {
+                steps.push(Step::Advance { ms: past });
+                steps.push(Step::Recover);
+                steps.push(Step::Decide);
+            },
+            _ => {},
+        }
+    }
+    let recover_after_restart = rng.chance(1, 4);
+    let mode = match rng.below(8) {
+        0..=3 => Mode::Sample { seed: rng.next_u64(), points: rng.range(40, 120) as u32 },
+        4..=5 => Mode::Enumerate,
+        _ => gen_chain(rng, steps.len()),
+    };
+    Case { steps, recover_after_restart, mode, handle_numbering: u8::from(rng.chance(1, 2)), log_limit: None, configs }
 }
 
 /// `Mode::Limits`: see there.
@@ -2089,7 +2337,7 @@ fn run_limits(case: &Case, ctx: &Arc<RunCtx>, seed: u64, points: u32, out: &mut 
     // 1 = every timeout passes on the live coordinator, then the epilogue;
     // 2 = every transaction is aborted on the live coordinator, then the epilogue
     let tails: [Vec<Step>; 3] =
-        [Vec::new(), vec![Step::Advance { ms: 6000 }, Step::Sweep, Step::Aborts], slots.iter().map(|t| Step::Abort { t: *t }).collect()];
+        [Vec::new(), vec![Step::Advance { ms: timeout_span(case) }, Step::Sweep, Step::Aborts], slots.iter().map(|t| Step::Abort { t: *t }).collect()];
     let mut variants: Vec<(LogLimit, usize)> = Vec::new();
     let mut cum = 0u64;
     let mut k = 0usize;
@@ -2153,7 +2401,7 @@ fn run_limits(case: &Case, ctx: &Arc<RunCtx>, seed: u64, points: u32, out: &mut 
                 v.detail,
                 limit.max_bytes,
                 limit.lives,
-                ["the epilogue", "advance 6000 ms, cleanup_timeouts, process_pending_aborts, then the epilogue", "abort of every transaction, then the epilogue"][tail]
+                ["the epilogue", "advance past every timeout, cleanup_timeouts, process_pending_aborts, then the epilogue", "abort of every transaction, then the epilogue"][tail]
             );
             out.violation = Some(v);
             out.nontrivial = true;
@@ -2190,45 +2438,11 @@ fn sample_offsets(len: usize) -> Vec<usize> {
     v
 }
 
-impl Scenario for C13 {
-    type Case = Case;
-    fn id(&self) -> &'static str {
-        "C13"
-    }
-    fn level(&self) -> &'static str {
-        "fault_enumeration"
-    }
-    fn runs(&self, tier: Tier) -> u64 {
-        match tier {
-            Tier::Quick => 900,
-            Tier::Thorough => 15_000,
-        }
-    }
-
-    fn generate(&self, rng: &mut Rng, _tier: Tier, index: u64) -> Case {
-        match index % 8 {
-            3 => gen_wide(rng, (index / 8) % 12 == 0),
-            1 | 5 => gen_par(rng),
-            7 => gen_limited(rng, (index / 8) % 4 == 3),
-            _ => gen_classic(rng),
-        }
-    }
-
-    fn run(&self, case: &Case, ctx: &Arc<RunCtx>) -> RunOut {
-        init_process();
-        // threads of a `Par` step are switched only at this scenario's own points and at
-        // tensor_chain's lock acquisitions (see sched::Baton::allow)
-        crate::sched::set_allowed_sites(&["c13.", "tensor_chain."]);
-        let mut out = RunOut::default();
-        ctx.fp(&format!("rec{}:{}:h{}", case.recover_after_restart, mode_name(&case.mode), case.handle_numbering));
-        if case.handle_numbering == 1 {
-            ctx.probe("participant_numbered_handles");
-        }
-        if let Some(l) = &case.log_limit {
-            ctx.fp(&format!("limit:{}", l.lives));
-        }
+/// One case in its mode (see `Mode`).
+fn run_mode(case: &Case, ctx: &Arc<RunCtx>, out: &mut RunOut) {
+    {
         match &case.mode {
-            Mode::Limits { seed, points } => run_limits(case, ctx, *seed, *points, &mut out),
+            Mode::Limits { seed, points } => run_limits(case, ctx, *seed, *points, out),
             Mode::Chain(specs) => {
                 let mut t = Trial::new(ctx, case, 0);
                 let (v, _) = t.run(specs, false);
@@ -2263,10 +2477,10 @@ impl Scenario for C13 {
                 if let Err(v) = v {
                     out.violation = Some(v);
                     out.nontrivial = true;
-                    return out;
+                    return;
                 }
                 if out.harness_error.is_some() {
-                    return out;
+                    return;
                 }
                 let mut all_points: Vec<Vec<CrashSpec>> = Vec::new();
                 for (k, (_step, ev)) in syslog.iter().enumerate() {
@@ -2328,11 +2542,11 @@ impl Scenario for C13 {
                         let mut reduced = case.clone();
                         reduced.mode = Mode::Chain(specs);
                         out.reduced = serde_json::to_value(&reduced).ok();
-                        return out;
+                        return;
                     }
                     if he.is_some() {
                         out.harness_error = he;
-                        return out;
+                        return;
                     }
                 }
                 // Schedules of the `Par` steps, preemption bound 1: each thread in turn starts and
@@ -2387,15 +2601,71 @@ impl Scenario for C13 {
                         }
                         reduced.mode = Mode::Chain(Vec::new());
                         out.reduced = serde_json::to_value(&reduced).ok();
-                        return out;
+                        return;
                     }
                     if he.is_some() {
                         out.harness_error = he;
-                        return out;
+                        return;
                     }
                 }
                 out.nontrivial = syslog.len() >= 2;
             },
+        }
+    }
+}
+
+impl Scenario for C13 {
+    type Case = Case;
+    fn id(&self) -> &'static str {
+        "C13"
+    }
+    fn level(&self) -> &'static str {
+        "fault_enumeration"
+    }
+    fn runs(&self, tier: Tier) -> u64 {
+        match tier {
+            Tier::Quick => 900,
+            Tier::Thorough => 15_000,
+        }
+    }
+
+    fn generate(&self, rng: &mut Rng, _tier: Tier, index: u64) -> Case {
+        match index % 8 {
+            3 => gen_wide(rng, (index / 8) % 12 == 0),
+            1 | 5 => gen_par(rng),
+            7 => gen_limited(rng, (index / 8) % 4 == 3),
+            6 => gen_rounds(rng),
+            _ => {
+                // the round-1 program; every fourth of them under a drawn configuration
+                let mut case = gen_classic(rng);
+                if rng.chance(1, 4) {
+                    case.configs = gen_configs(rng);
+                }
+                case
+            },
+        }
+    }
+
+    fn run(&self, case: &Case, ctx: &Arc<RunCtx>) -> RunOut {
+        init_process();
+        // threads of a `Par` step are switched only at this scenario's own points and at
+        // tensor_chain's lock acquisitions (see sched::Baton::allow)
+        crate::sched::set_allowed_sites(&["c13.", "tensor_chain."]);
+        let mut out = RunOut::default();
+        ctx.fp(&format!("rec{}:{}:h{}", case.recover_after_restart, mode_name(&case.mode), case.handle_numbering));
+        if case.handle_numbering == 1 {
+            ctx.probe("participant_numbered_handles");
+        }
+        if let Some(l) = &case.log_limit {
+            ctx.fp(&format!("limit:{}", l.lives));
+        }
+        for c in &case.configs {
+            ctx.fp(&format!("cfg:{}:{}", c.max_concurrent, c.prepare_timeout_ms));
+        }
+        run_mode(case, ctx, &mut out);
+        if let (Some(v), false) = (&mut out.violation, case.configs.is_empty()) {
+            let shown: Vec<String> = case.configs.iter().map(CoordCfg::show).collect();
+            v.detail = format!("{} [coordinator configuration by incarnation (the last one stays): {}]", v.detail, shown.join(" | "));
         }
         out
     }
@@ -2448,6 +2718,51 @@ impl Scenario for C13 {
             let mut c = case.clone();
             c.handle_numbering = 0;
             v.push(c);
+        }
+        if !case.configs.is_empty() {
+            // the default configuration; one configuration for every incarnation; single fields
+            // back to their defaults; a limit one higher
+            let mut c = case.clone();
+            c.configs = Vec::new();
+            v.push(c);
+            if case.configs.len() > 1 {
+                for k in 0..case.configs.len() {
+                    let mut c = case.clone();
+                    c.configs = vec![case.configs[k].clone()];
+                    v.push(c);
+                }
+            }
+            let d = CoordCfg::default_values();
+            for k in 0..case.configs.len() {
+                let cur = &case.configs[k];
+                let mut cands: Vec<CoordCfg> = Vec::new();
+                if cur.prepare_timeout_ms != d.prepare_timeout_ms {
+                    cands.push(CoordCfg { prepare_timeout_ms: d.prepare_timeout_ms, ..cur.clone() });
+                }
+                if cur.commit_timeout_ms != d.commit_timeout_ms {
+                    cands.push(CoordCfg { commit_timeout_ms: d.commit_timeout_ms, ..cur.clone() });
+                }
+                if cur.max_concurrent != d.max_concurrent {
+                    cands.push(CoordCfg { max_concurrent: d.max_concurrent, ..cur.clone() });
+                    if cur.max_concurrent < 8 {
+                        cands.push(CoordCfg { max_concurrent: cur.max_concurrent + 1, ..cur.clone() });
+                    }
+                }
+                if cur.orthogonal_threshold != d.orthogonal_threshold {
+                    cands.push(CoordCfg { orthogonal_threshold: d.orthogonal_threshold, ..cur.clone() });
+                }
+                if cur.optimistic_locking != d.optimistic_locking {
+                    cands.push(CoordCfg { optimistic_locking: d.optimistic_locking, ..cur.clone() });
+                }
+                if cur.tx_queue_soft_limit_pct != d.tx_queue_soft_limit_pct {
+                    cands.push(CoordCfg { tx_queue_soft_limit_pct: d.tx_queue_soft_limit_pct, ..cur.clone() });
+                }
+                for cand in cands {
+                    let mut c = case.clone();
+                    c.configs[k] = cand;
+                    v.push(c);
+                }
+            }
         }
         if let Some(l) = &case.log_limit {
             let mut c = case.clone();
@@ -2562,14 +2877,22 @@ impl Scenario for C13 {
             "drive_failed_on_refused_append",
             "restart_under_size_limit",
             "size_limit_lifted_at_restart",
+            // round 4
+            "non_default_coordinator_configuration",
+            "begin_refused_at_max_concurrent",
+            "begin_refused_at_max_concurrent_after_restart",
+            "begin_admitted_into_slot_freed_by_timeout_sweep",
+            "restart_with_more_open_txs_in_log_than_max_concurrent",
+            "tx_timed_out_under_configured_timeout",
+            "configuration_changed_at_restart",
         ]
     }
     fn rule(&self) -> String {
-        "A case is a generated program followed by a fixed epilogue (restart; drive every recovered transaction to completion; restart; sweep after every timeout; a new transaction on the same keys; restart). Four shapes, chosen by run index: (4/8) the round-1 program: 1-4 transactions of 1-3 participants with overlapping keys; begin, votes yes/no/resent/flipped/late, commit, abort, clock advances, timeout sweeps, abort broadcasts, pending-decision completion, recover(), clean restarts; (1/8) the same with one transaction of 8 300 - 262 000 participants begun in the middle (TxBegin / AbortIntent records of 64 KiB - 1 MiB; every 12th of these has the 1 MiB record); (2/8) 1-3 transactions whose participants' votes and, now and then, commit and/or abort are issued by 2-4 scheduled threads (one block for all or one per transaction; participants prepare inside the threads or one after the other ahead of them), followed by decisions, clean restarts or a commit/abort race after a restart; (1/8) the round-1 program on a log with a hard size limit without rotation (WalConfig max_size_bytes, auto_rotate=false): three of four of these in Limits mode, one of four with a drawn limit of 20 bytes up to about the size of the program's records, in force for the first 1 or 2 incarnations or always, together with 1-3 crashes (Chain mode). In half of the cases the YES votes carry participant-numbered lock handles that start again from 1 in every incarnation. Enumerate mode (round-1 shape): every mutating syscall boundary of program+epilogue (un-synced log bytes kept, dropped, or cut at a pseudo-random length) and byte offsets inside every log write (all offsets of records up to 48 bytes, ~25 sampled ones of longer records) are each taken as a power-loss crash point, each followed by restart from the log, the property checks, the rest of the program and the epilogue (three more restarts). Sample mode (wide and thread shapes): a seeded subset (10-40) of the same crash points, and, for every thread block, the schedules with preemption bound 1 (each thread starts first; one switch at schedule point j, for every j; at most 64 per case) without a crash. Limits mode: a reference execution without limit gives the log size before every record of program+epilogue; for every record, the limit is set so that this record is the first one refused, with no room left and with one byte less than it needs (shorter records still fit), each followed by (a) the epilogue at once, (b) advance 6 s + cleanup_timeouts + process_pending_aborts on the live coordinator and then the epilogue, (c) abort of every transaction on the live coordinator and then the epilogue; the limit stays for ever, or is lifted at the next restart, or at the one after it (rotating); no crash. Chain mode: 1-3 seeded crashes in one execution, the later ones shortly after a restart. inner_enumerated_points counts all these executions. Non-trivial: at least one crash fired (Chain) or the program issued >=2 mutating syscalls (Enumerate, Sample, Limits). Distinct: hash of (recover flag, mode, handle numbering, lives of the log limit, sequence of step kinds and crash sites).".into()
+        "A case is a generated program followed by a fixed epilogue (restart; drive every recovered transaction to completion; restart; sweep after every timeout; a new transaction on the same keys; restart). Five shapes, chosen by run index: (3/8) the round-1 program: 1-4 transactions of 1-3 participants with overlapping keys; begin, votes yes/no/resent/flipped/late, commit, abort, clock advances, timeout sweeps, abort broadcasts, pending-decision completion, recover(), clean restarts; (1/8) the same with one transaction of 8 300 - 262 000 participants begun in the middle (TxBegin / AbortIntent records of 64 KiB - 1 MiB; every 12th of these has the 1 MiB record); (2/8) 1-3 transactions whose participants' votes and, now and then, commit and/or abort are issued by 2-4 scheduled threads (one block for all or one per transaction; participants prepare inside the threads or one after the other ahead of them), followed by decisions, clean restarts or a commit/abort race after a restart; (1/8) the round-1 program on a log with a hard size limit without rotation (WalConfig max_size_bytes, auto_rotate=false): three of four of these in Limits mode, one of four with a drawn limit of 20 bytes up to about the size of the program's records, in force for the first 1 or 2 incarnations or always, together with 1-3 crashes (Chain mode); (1/8) the configuration shape: 2-3 rounds of as many transactions (1-2 participants, mostly disjoint keys) as the coordinator's max_concurrent admits and now and then one more (refused), mostly all-YES votes, a few decisions, and between the rounds one of: every timeout passes + cleanup_timeouts (+ abort broadcast), clean restart, sweep then restart, restart then sweep, pending decisions / drive, advance exactly to the timeout + sweep, advance + recover() + decide, nothing; up to 6 transactions; Sample (40-120 crash points), Enumerate or Chain mode. The coordinator's configuration is part of the case (every field of DistributedTxConfig: max_concurrent 0-5 or 100, prepare_timeout_ms 0 - 60 000, commit_timeout_ms, orthogonal_threshold -1 - 2, optimistic_locking, tx_queue_soft_limit_pct), the same for every incarnation or (3 of 8) changed at the first restart (default -> drawn, drawn -> drawn, drawn -> default): always in the configuration shape, in every fourth round-1 program, default elsewhere; the epilogue's and the live tails' clock advance is past the longest configured timeout. In half of the cases the YES votes carry participant-numbered lock handles that start again from 1 in every incarnation. Enumerate mode (round-1 shape): every mutating syscall boundary of program+epilogue (un-synced log bytes kept, dropped, or cut at a pseudo-random length) and byte offsets inside every log write (all offsets of records up to 48 bytes, ~25 sampled ones of longer records) are each taken as a power-loss crash point, each followed by restart from the log, the property checks, the rest of the program and the epilogue (three more restarts). Sample mode (wide and thread shapes): a seeded subset (10-40) of the same crash points, and, for every thread block, the schedules with preemption bound 1 (each thread starts first; one switch at schedule point j, for every j; at most 64 per case) without a crash. Limits mode: a reference execution without limit gives the log size before every record of program+epilogue; for every record, the limit is set so that this record is the first one refused, with no room left and with one byte less than it needs (shorter records still fit), each followed by (a) the epilogue at once, (b) advance 6 s + cleanup_timeouts + process_pending_aborts on the live coordinator and then the epilogue, (c) abort of every transaction on the live coordinator and then the epilogue; the limit stays for ever, or is lifted at the next restart, or at the one after it (rotating); no crash. Chain mode: 1-3 seeded crashes in one execution, the later ones shortly after a restart. inner_enumerated_points counts all these executions. Non-trivial: at least one crash fired (Chain) or the program issued >=2 mutating syscalls (Enumerate, Sample, Limits). Distinct: hash of (recover flag, mode, handle numbering, lives of the log limit, max_concurrent and prepare timeout of the configurations, sequence of step kinds and crash sites).".into()
     }
     fn components(&self) -> Value {
         json!({
-            "real": ["tensor_chain::DistributedTxCoordinator (begin, handle_prepare, record_vote, commit, abort, cleanup_timeouts, process_pending_aborts, recover_from_wal, recover, get_pending_decisions, complete_commit, complete_abort, lock_manager)", "tensor_chain::TxWal (open, open_with_config(WalConfig { max_size_bytes: <case>, auto_rotate: false, ..default }) in the incarnations the case names, append, replay), TxRecoveryState", "LockManager / WaitForGraph", "std::fs / BufWriter", "tensor_chain::sync_compat locks (their acquisitions are the schedule points of the thread blocks)"],
+            "real": ["tensor_chain::DistributedTxCoordinator (new(.., DistributedTxConfig { every field from the case }), begin, handle_prepare, record_vote, commit, abort, cleanup_timeouts, process_pending_aborts, recover_from_wal, recover, get_pending_decisions, complete_commit, complete_abort, lock_manager)", "tensor_chain::TxWal (open, open_with_config(WalConfig { max_size_bytes: <case>, auto_rotate: false, ..default }) in the incarnations the case names, append, replay), TxRecoveryState", "LockManager / WaitForGraph", "std::fs / BufWriter", "tensor_chain::sync_compat locks (their acquisitions are the schedule points of the thread blocks)"],
             "simulated": ["disk: libc write/fsync/open/ftruncate interposed, files on tmpfs with durable-watermark bookkeeping; crash at a chosen syscall/byte; power loss cuts the log to a length between fsynced and written", "clock (SystemTime/Instant) advanced by the step list", "network: SimTransport collects the abort broadcasts", "threads of a Par step: real OS threads run one at a time by the baton scheduler, switched only at tensor_chain lock acquisitions and between operations, the picks are part of the case"],
             "stub": ["participants: votes are scripted by the step list (a first YES takes its lock through the coordinator's real handle_prepare; with handle_numbering=1 the vote names that lock by the participant's own number, 1, 2, ... in every incarnation)"]
         })
@@ -2584,6 +2907,7 @@ impl Scenario for C13 {
             "a coordinator call that returned Err is un-acknowledged: the ledger assumes nothing about what it did and reads the log back at once; a completion counts as logged when its TxComplete record is in the log (the first one, should there be several). Nothing is claimed about the locks of a transaction whose completion was logged by a call that returned Err until the next restart. record_vote answers Ok(None) also when the vote's append was refused and the vote dropped; whether the vote was taken is read from the coordinator (get(tx).votes); a dropped vote is not a collected vote. 'can be driven to completion' is not claimed for a commit/abort that fails because the size-limited log refuses its records".into(),
             "a reversal (timeout or abort after a logged commit, commit after a logged abort) by the incarnation that itself logged the completion is not judged at once (the text speaks of a restarted coordinator) but at the next completed restart from that log, whatever the restarted coordinator then does".into(),
             "'locks of completed transactions are released' after a restart is decided on recovery's report: the restarted coordinator's lock manager is new, so a lock that a completed transaction never gave back exists only as log records; it counts as released when the log holds a LockRelease record of that transaction for it or AllLocksReleased for the transaction, or when TxRecoveryState (what recover_from_wal acts on) lists it as orphaned for that transaction. A lock is identified by (transaction, handle), never by the handle value alone".into(),
+            "the coordinator's configuration is an input like the program: any DistributedTxConfig may be given to any incarnation (an operator may restart the coordinator with another configuration); a begin() refused because max_concurrent transactions are pending is un-acknowledged (no transaction exists, nothing is claimed about it); the clauses about restored transactions are not conditioned on the configuration (the text has no such condition)".into(),
             "in a thread block every participant's messages come from one thread (two different answers of one participant never race each other; they do follow each other, as in round 1); the ledger is updated in the order in which the coordinator's calls returned".into(),
         ]
     }
